@@ -1,5 +1,330 @@
-"""C03 (b): generated records with bit-fields; C vs Rust transcripts. (filled in below)"""
+"""C03 (b): generated records with bit-field runs - C program vs Rust program transcripts.
+
+Explored: runs of 1..3 bit-fields over base types {char, unsigned char, short, unsigned short, int, unsigned,
+long long, unsigned long long, _Bool, enum} and widths {1, 3, 7, 8, 9, 15, 16, 17, 31, 32, 33, 63, 64, full
+width, :0 separators, unnamed padding fields}, optionally preceded / followed by a plain char or int member, in
+{plain, packed, #pragma pack(1|2|4), aligned(8)} structs and in unions. For every field and every extreme value
+(0, 1, max, min, -1) on a zero-filled and a 0xFF-filled object the same store is executed by a clang-built C
+program (plain assignment) and by a rustc-built program (generated setter, raw setter; the allocation-unit
+constructor on the zeroed object): object bytes and the values read back through every getter / raw getter
+must be identical.
+"""
+import itertools
+import os
+import re
+
+from . import common, probes
+from .gen_c import rust_field
+
+BASES = {"char": ("char", True, 8), "uchar": ("unsigned char", False, 8), "short": ("short", True, 16), "ushort": ("unsigned short", False, 16),
+         "int": ("int", True, 32), "uint": ("unsigned", False, 32), "llong": ("long long", True, 64), "ullong": ("unsigned long long", False, 64),
+         "bool": ("_Bool", False, 1), "enum": ("enum bfe", False, 32)}
+WIDTHS = [1, 3, 7, 8, 9, 15, 16, 17, 31, 32, 33, 63, 64]
+ATTRS = [("plain", "", "", ""), ("packed", "", "__attribute__((packed))", ""), ("pp1", "#pragma pack(push, 1)\n", "", "\n#pragma pack(pop)"),
+         ("pp2", "#pragma pack(push, 2)\n", "", "\n#pragma pack(pop)"), ("pp4", "#pragma pack(push, 4)\n", "", "\n#pragma pack(pop)"),
+         ("al8", "", "__attribute__((aligned(8)))", "")]
+
+
+class BFCase:
+    def __init__(self, tag, kind, attr, members):
+        """members: list of ("bf", base, width, name) | ("plain", ctype, name) | ("sep", base) | ("pad", base, width)"""
+        self.tag, self.kind, self.attr, self.members = tag, kind, attr, members
+        desc = []
+        for m in members:
+            if m[0] == "bf":
+                desc.append(f"{m[1]}:{m[2]}")
+            elif m[0] == "plain":
+                desc.append(m[1].replace(" ", "_"))
+            elif m[0] == "sep":
+                desc.append(f"{m[1]}:0")
+            else:
+                desc.append(f"{m[1]}:{m[2]}pad")
+        self.cid = f"bf-{kind}[{attr}]({','.join(desc)})"
+        self.atoms, self.rattr, self.mattr = [], attr, ""
+
+    def c_name(self):
+        return f"{self.kind} {self.tag}"
+
+    def bitfields(self):
+        return [(m[3], m[1], m[2]) for m in self.members if m[0] == "bf"]
+
+    def plains(self):
+        return [(m[2], m[1]) for m in self.members if m[0] == "plain"]
+
+    def source(self):
+        pre, a, post = next((p, x, q) for (k, p, x, q) in ATTRS if k == self.attr)
+        body = []
+        for m in self.members:
+            if m[0] == "bf":
+                body.append(f"{BASES[m[1]][0]} {m[3]}:{m[2]};")
+            elif m[0] == "plain":
+                body.append(f"{m[1]} {m[2]};")
+            elif m[0] == "sep":
+                body.append(f"{BASES[m[1]][0]} :0;")
+            else:
+                body.append(f"{BASES[m[1]][0]} :{m[2]};")
+        return f"{pre}{self.kind} {a} {self.tag} {{ {' '.join(body)} }};{post}"
+
+
+def values(base, width):
+    _, signed, bits = BASES[base]
+    if base == "bool":
+        return [0, 1]
+    if base == "enum":
+        return sorted({0, 1, (1 << width) - 1, (1 << (width - 1))})
+    if signed:
+        vs = {0, -1, -(1 << (width - 1)), (1 << (width - 1)) - 1}
+        if width > 1:
+            vs.add(1)
+        return sorted(vs)
+    return sorted({0, 1, (1 << width) - 1, 1 << (width - 1)})
+
+
+def family(tier, seed):
+    out = []
+    n = [0]
+
+    def add(kind, attr, members):
+        n[0] += 1
+        out.append(BFCase(f"K{n[0]}", kind, attr, members))
+
+    def widths_for(base):
+        return [w for w in WIDTHS if w <= BASES[base][2]] if base not in ("bool",) else [1]
+
+    bases = list(BASES)
+    # single fields, every base x every width x every attribute, struct and union, bare and surrounded by plain members
+    for b in bases:
+        for w in widths_for(b):
+            for attr, _, _, _ in ATTRS:
+                add("struct", attr, [("bf", b, w, "f0")])
+                add("struct", attr, [("plain", "char", "pre"), ("bf", b, w, "f0"), ("plain", "int", "post")])
+                if attr in ("plain", "packed", "pp2"):
+                    add("union", attr, [("bf", b, w, "f0"), ("plain", "int", "other")])
+    # pairs: all (base, width) x (base, width) over reduced sets, in plain / packed / pp2 structs
+    pb = ["uchar", "short", "uint", "llong", "ullong", "bool"]
+    pw = [1, 3, 8, 9, 31, 33, 63, 64]
+    pairs = [(b, w) for b in pb for w in pw if w <= BASES[b][2] and (b != "bool" or w == 1)]
+    if tier == "quick":
+        pairs = [p for k, p in enumerate(pairs) if (k + seed) % 2 == 0]
+    for (b1, w1), (b2, w2) in itertools.product(pairs, repeat=2):
+        for attr in ("plain", "packed", "pp2", "pp4"):
+            add("struct", attr, [("bf", b1, w1, "f0"), ("bf", b2, w2, "f1")])
+    # triples with separators and unnamed padding fields, interleaved plain members
+    tb = [("uint", 3), ("uint", 30), ("ushort", 9), ("ullong", 60), ("int", 17), ("char", 7), ("llong", 33)]
+    for (b1, w1), (b2, w2), (b3, w3) in itertools.product(tb, repeat=3):
+        if tier == "quick" and (hash((b1, w1, b2, w2, b3, w3)) + seed) % 6:
+            continue
+        for attr in ("plain", "packed", "pp2", "pp4", "al8"):
+            add("struct", attr, [("bf", b1, w1, "f0"), ("bf", b2, w2, "f1"), ("bf", b3, w3, "f2")])
+        add("struct", "plain", [("bf", b1, w1, "f0"), ("sep", b2), ("bf", b2, w2, "f1"), ("bf", b3, w3, "f2")])
+        add("struct", "plain", [("bf", b1, w1, "f0"), ("pad", "uint", 5), ("bf", b2, w2, "f1"), ("plain", "char", "mid"), ("bf", b3, w3, "f2")])
+        add("struct", "pp2", [("plain", "char", "pre"), ("bf", b1, w1, "f0"), ("bf", b2, w2, "f1"), ("plain", "short", "mid"), ("bf", b3, w3, "f2")])
+    return out
+
+
+C_PRE = probes.C_PRELUDE + "\nenum bfe { BFE_A, BFE_B = 1 };\n"
+
+
+def c_program(cases, header):
+    out = [C_PRE, f'#include "{header}"', "int main(void) {"]
+    for c in cases:
+        T = c.c_name()
+        bfs = c.bitfields()
+        for fi, (f, b, w) in enumerate(bfs):
+            for vi, v in enumerate(values(b, w)):
+                for fill in (0, 255):
+                    lit = f"({BASES[b][0]})({v}LL)" if b != "enum" else f"(enum bfe){v}u"
+                    if b == "ullong" or (not BASES[b][1] and b != "enum"):
+                        lit = f"({BASES[b][0]})({v}ULL)"
+                    out.append(f"  {{ {T} s; memset(&s, {fill}, sizeof s); s.{f} = {lit}; printf(\"W {c.tag} {fi} {vi} {fill} \"); dump(\"\", &s, sizeof s);")
+                    reads = " ".join((f'printf("R {c.tag} {fi} {vi} {fill} {g} %lld\\n", (long long)s.{g});' if BASES[gb][1] else
+                                      f'printf("R {c.tag} {fi} {vi} {fill} {g} %llu\\n", (unsigned long long)s.{g});') for (g, gb, gw) in bfs)
+                    out.append(f"    {reads} }}")
+        # constructor image: all fields assigned on a zeroed object
+        assigns = " ".join(f"s.{f} = ({BASES[b][0] if b != 'enum' else 'enum bfe'})({values(b, w)[-1]}{'ULL' if not BASES[b][1] else 'LL'});" for (f, b, w) in bfs)
+        out.append(f"  {{ {T} s; memset(&s, 0, sizeof s); {assigns} printf(\"C {c.tag} \"); dump(\"\", &s, sizeof s); }}")
+    out.append("  return 0; }")
+    return "\n".join(out)
+
+
+def rust_program(cases, idx, bpath, impls):
+    out = [probes.RUST_PRELUDE.replace("@BINDINGS@", bpath),
+           "fn hexof<T>(p: *const T) -> String { let n = size_of::<T>(); let b = unsafe { std::slice::from_raw_parts(p as *const u8, n) }; b.iter().map(|x| format!(\"{:02x}\", x)).collect() }"]
+    calls = []
+    missing = {}
+    for c in cases:
+        if c.tag not in idx:
+            missing[c.tag] = "type not emitted"
+            continue
+        methods = impls.get(c.tag, set())
+        bfs = c.bitfields()
+        need = set()
+        for f, b, w in bfs:
+            rf = rust_field(f)
+            need |= {rf, f"set_{f}", f"{f}_raw", f"set_{f}_raw"}
+        if not need <= methods:
+            missing[c.tag] = f"accessors missing: {sorted(need - methods)[:4]}"
+            continue
+        X = f"b::{c.tag}"
+        # one function per (case, field): a panic (debug assertion in the accessor) loses only that field's transcript
+        for fi, (f, b, w) in enumerate(bfs):
+            body = []
+            for vi, v in enumerate(values(b, w)):
+                for fill in (0, 255):
+                    val = ("true" if v else "false") if b == "bool" else (f"({v}i128) as _")
+                    for mode in ("set", "raw"):
+                        store = f"(*p).set_{f}({val});" if mode == "set" else f"{X}::set_{f}_raw(p, {val});"
+                        tagm = "W" if mode == "set" else "WR"
+                        body.append(f"  {{ let mut u = Buf([{fill}u8; size_of::<{X}>()]); let p = u.0.as_mut_ptr() as *mut {X}; unsafe {{ {store} }} println!(\"{tagm} {c.tag} {fi} {vi} {fill} D  {{}}\", hexof(p)); /*{c.tag}*/")
+                        for (g, gb, gw) in bfs:
+                            rd = f"(*p).{rust_field(g)}()" if mode == "set" else f"{X}::{g}_raw(p)"
+                            body.append(f"    println!(\"{'R' if mode == 'set' else 'RR'} {c.tag} {fi} {vi} {fill} {g} {{}}\", unsafe {{ {rd} }} as i128); /*{c.tag}*/")
+                        body.append(f"  }} /*{c.tag}*/")
+            out.append(f"#[inline(never)] fn case_{c.tag}_{fi}() {{ /*{c.tag}*/\n" + "\n".join(body) + f"\n}} /*{c.tag}*/")
+            calls.append(f"  if std::panic::catch_unwind(case_{c.tag}_{fi}).is_err() {{ println!(\"PANIC {c.tag} {fi}\"); }}")
+    out.append("fn main() {\n  std::panic::set_hook(Box::new(|_| {}));\n" + "\n".join(calls) + "\n}")
+    return "\n".join(out), missing
+
+
+def parse(text):
+    W, R = {}, {}
+    for line in text.splitlines():
+        p = line.split()
+        if not p:
+            continue
+        if p[0] in ("W", "WR"):
+            W[(p[0], p[1], p[2], p[3], p[4])] = p[-1]
+        elif p[0] in ("R", "RR"):
+            R[(p[0], p[1], p[2], p[3], p[4], p[5])] = p[6]
+        elif p[0] == "C":
+            W[("C", p[1])] = p[-1]
+        elif p[0] == "PANIC":
+            W[("PANIC", p[1], p[2])] = "1"
+    return W, R
 
 
 def run(ck, only=None):
-    return
+    if only and only.get("kind") == "sweep":
+        return
+    wd = os.path.join(ck.wd, "records")
+    os.makedirs(wd, exist_ok=True)
+    cases = family(ck.tier, ck.seed)
+    if only:
+        cases = [c for c in cases if c.cid == only.get("cid")]
+    B = 120
+    batches = [(f"r{i // B}", cases[i:i + B]) for i in range(0, len(cases), B)]
+    jobs = []
+    for name, cs in batches:
+        hp = os.path.join(wd, f"{name}.h")
+        open(hp, "w").write("enum bfe { BFE_A, BFE_B = 1 };\n" + "\n".join(c.source() for c in cs) + "\n")
+        jobs.append({"id": name, "args": [hp, "--formatter", "prettyplease", "--no-layout-tests"], "inventory": True, "timeout": 180})
+    gen = common.run_jobs(jobs, wd, timeout=180)
+
+    def one(b):
+        name, cs = b
+        res = []
+        g = gen[name]
+        if g["status"] != "ok":
+            return [(c, "generation-failed", str(g.get("err") or g.get("panic"))[:200], None) for c in cs]
+        cp = os.path.join(wd, f"{name}.c")
+        open(cp, "w").write(c_program(cs, f"{name}.h").replace("enum bfe { BFE_A, BFE_B = 1 };\n", "", 1))
+        exe = os.path.join(wd, f"{name}_c")
+        rc, _, err = common.clang(["-std=gnu11", "-w", "-O0", "-o", exe, cp], cwd=wd)
+        if rc != 0:
+            raise common.Machinery(f"C03b C program does not compile: {err[:800]}")
+        cW, cR = parse(common.sh([exe], timeout=300).stdout.decode())
+        bp = os.path.join(wd, f"{name}_b.rs")
+        open(bp, "w").write(g["text"])
+        idx = probes.index_inventory(g["inventory"])
+        impls = {}
+        for it in g["inventory"]["items"]:
+            if it["kind"] == "impl" and it.get("trait") is None:
+                impls.setdefault(it["self_ty"], set()).update(x["name"] for x in it["items"] if x["kind"] == "fn")
+        live = list(cs)
+        rW = rR = None
+        for attempt in range(4):
+            src, missing = rust_program(live, idx, bp, impls)
+            for t, why in missing.items():
+                c = next(x for x in cs if x.tag == t)
+                res.append((c, "no-accessors", why, None))
+            live = [c for c in live if c.tag not in missing]
+            mp = os.path.join(wd, f"{name}_main.rs")
+            open(mp, "w").write(src)
+            rexe = os.path.join(wd, f"{name}_r")
+            ok, tags, msgs = probes.rustc_diagnose(mp, rexe, g["text"], bp)
+            if ok:
+                p = common.sh([rexe], timeout=600)
+                if p.returncode != 0:
+                    return res + [(c, "rust-program-crashed", p.stderr.decode()[-200:], None) for c in live]
+                rW, rR = parse(p.stdout.decode())
+                break
+            bad = [c for c in live if c.tag in tags]
+            if not bad:
+                return res + [(c, "rust-rejects", "; ".join(sorted(set(msgs))[:2])[:200], None) for c in live]
+            bt = getattr(probes.rustc_diagnose, "last_by_tag", {})
+            for c in bad:
+                res.append((c, "rust-rejects", " | ".join(sorted(set(bt.get(c.tag, msgs[:2]))))[:250], None))
+            live = [c for c in live if c.tag not in tags]
+        if rW is None:
+            return res
+        for c in live:
+            bfs = c.bitfields()
+            for fi, (f, b, w) in enumerate(bfs):
+                probs = None
+                classes = set()
+                if ("PANIC", c.tag, str(fi)) in rW:
+                    classes.add("panic")
+                    probs = f"accessor of {f} ({BASES[b][0]}:{w}) panics (debug assertion / out-of-range access in the bit-field unit)"
+                for vi, v in enumerate(values(b, w)):
+                    for fill in ("0", "255"):
+                        cw = cW.get(("W", c.tag, str(fi), str(vi), fill))
+                        for mode, rk in (("W", "R"), ("WR", "RR")):
+                            rw = rW.get((mode, c.tag, str(fi), str(vi), fill))
+                            if cw != rw:
+                                classes.add("store")
+                                probs = probs or f"{'setter' if mode == 'W' else 'raw setter'} of {f} ({BASES[b][0]}:{w}) value {v} on 0x{int(fill):02x}-filled object: C bytes {cw} Rust bytes {rw}"
+                            for (g2, gb, gw) in bfs:
+                                cr = cR.get(("R", c.tag, str(fi), str(vi), fill, g2))
+                                rr = rR.get((rk, c.tag, str(fi), str(vi), fill, g2))
+                                if cr != rr and cw == rw:
+                                    signed_g = BASES[gb][1]
+                                    if signed_g and cr is not None and rr is not None and int(cr) < 0 and int(rr) == int(cr) + (1 << gw):
+                                        classes.add("sign-extension")
+                                    else:
+                                        classes.add("read")
+                                    probs = probs or f"{'getter' if rk == 'R' else 'raw getter'} of {g2} ({BASES[gb][0]}:{gw}) after storing {v} into {f}: C reads {cr} Rust reads {rr}"
+                if probs:
+                    # bit offset of the field as C lays it out (lowest set bit after storing all-ones on a zeroed object)
+                    allv = values(b, w)
+                    ones = allv.index(-1) if BASES[b][1] else allv.index(max(allv))
+                    allone = cW.get(("W", c.tag, str(fi), str(ones), "0"))
+                    off = None
+                    if allone:
+                        bits = int.from_bytes(bytes.fromhex(allone), "little")
+                        off = (bits & -bits).bit_length() - 1 if bits else None
+                    res.append((c, f"field {f}", probs, (off, w, "+".join(sorted(classes)))))
+        return res
+
+    for name, cs in batches:
+        for c in cs:
+            ck.count()
+            if len(c.bitfields()) > 1 or c.attr != "plain" or c.plains():
+                ck.nontriv(c.cid)
+    for results in common.pmap(one, batches):
+        seen = set()
+        for c, what, why, ow in results:
+            key = (c.cid, what)
+            if key in seen:
+                continue
+            seen.add(key)
+            pred = None
+            if ow and ow[2] == "sign-extension":
+                pred = "signed-bitfield-no-sign-extension"
+            elif ow and ow[0] is not None and ow[0] % 8 + ow[1] > 64:
+                pred = "needs-ninth-byte"
+            elif what in ("rust-rejects", "no-accessors", "generation-failed"):
+                pred = f"record-{what}|{c.kind}|{c.attr}"
+            else:
+                pred = f"record-mismatch|{ow[2] if ow else ''}|{c.kind}|{c.attr}"
+            ck.violation(f"{c.cid} {what}", {"kind": "record", "cid": c.cid, "predicate": pred, "source": c.source(), "why": why})
+    ck.extra["bitfield_records"] = len(cases)
